@@ -760,7 +760,7 @@ impl<'a> Gen<'a> {
             Some(f) => {
                 // differ in the element type of the single parameter
                 let alt = match &f.params[0].0 { Ty::V(Sc::F, n) => Ty::V(Sc::I, *n), Ty::V(Sc::I, n) => Ty::V(Sc::U, *n), Ty::V(_, n) => Ty::V(Sc::F, *n), o => o.clone() };
-                if self.funcs.iter().any(|g| g.path == f.path && g.params[0].0 == alt) || alt == f.params[0].0 { return; }
+                if self.funcs.iter().any(|g| g.path == f.path && g.params.first().map(|p| &p.0) == Some(&alt)) || alt == f.params[0].0 { return; }
                 params.push((alt, 0));
             }
             None => {
